@@ -88,6 +88,7 @@ func H_C07_undel() {
 // leaves matured entries, entries from other sources and the redelegation records untouched.
 func H_C07_redel() {
 	id := "C07.redel"
+	nd.UFWindow(24) // the slash changes share totals; relating values before/after needs monotonicity
 	k := nd.Choice("packing", 4)
 	st := Build([]Pos{{0, 0, 0}, {0, 1, 0}, {1, 1, 0}}, Opts{NVals: 3})
 	e := st.E
